@@ -87,6 +87,9 @@ func runC20d(c *c20dCase) (v *vcommon.Violation, nontrivial, inconclusive bool) 
 	expiring := map[int]bool{} // stored with a 1 ms ttl: background eviction may remove it at any time
 	peak := map[uint64]int{}
 	rng := &vsplitmix{x: c.Seed}
+	// emptied tables stay allocated (recycled, reused by the next makeTable) until their idle timeout, so the
+	// table count is governed by the largest amount written between two compaction runs so far
+	maxRoundBytes := map[uint64]int{}
 	for round := 0; round < c.Rounds; round++ {
 		roundBytes := map[uint64]int{}
 		for j := 0; j < c.PerRound; j++ {
@@ -151,6 +154,17 @@ func runC20d(c *c20dCase) (v *vcommon.Violation, nontrivial, inconclusive bool) 
 			}
 		}
 		den := int(0.6*float64(S)) - emax
+		for p, n := range roundBytes {
+			if n > maxRoundBytes[p] {
+				maxRoundBytes[p] = n
+			}
+		}
+		// a key stored with a 1 ms ttl may be removed by background eviction at any moment, also between the
+		// compaction run above and the reading of the statistics below
+		expiringPart := map[uint64]bool{}
+		for kk := range expiring {
+			expiringPart[partOf(keyOf(kk))] = true
+		}
 		for _, m := range cl.live() {
 			for p := uint64(0); p < P; p++ {
 				for _, kind := range []partitions.Kind{partitions.PRIMARY, partitions.BACKUP} {
@@ -167,9 +181,17 @@ func runC20d(c *c20dCase) (v *vcommon.Violation, nontrivial, inconclusive bool) 
 					}
 					// closed survivors + tables opened by this round's writes + tables opened while compaction
 					// moves the live entries, plus one each for rounding and the table being written
-					maxTables := (peak[p]+den-1)/den + (roundBytes[p]+(S-emax)-1)/(S-emax) + (peak[p]+(S-emax)-1)/(S-emax) + 4
+					maxTables := (peak[p]+den-1)/den + (maxRoundBytes[p]+(S-emax)-1)/(S-emax) + (peak[p]+(S-emax)-1)/(S-emax) + 4
 					if st.NumTables > maxTables {
-						return fail("unbounded-tables:"+kind.String(), "%s: %d tables (%d bytes) allocated for %d live bytes (peak %d, %d bytes written this round); bound %d tables", where, st.NumTables, st.Allocated, st.Inuse, peak[p], roundBytes[p], maxTables), nontrivial, false
+						return fail("unbounded-tables:"+kind.String(), "%s: %d tables (%d bytes) allocated for %d live bytes (peak %d, at most %d bytes written in one round); bound %d tables", where, st.NumTables, st.Allocated, st.Inuse, peak[p], maxRoundBytes[p], maxTables), nontrivial, false
+					}
+					// garbage that background eviction produced after the compaction run: compaction has to
+					// bring it down again (it "keeps making progress until the ratio is below the threshold")
+					for try := 0; try < 3 && expiringPart[p] && st.Allocated > 0 && float64(st.Garbage) >= 0.4*float64(st.Allocated); try++ {
+						m.db.dmap.VerifDoCompaction(p)
+						if st2, ok := m.db.dmap.VerifFragmentStats(name, p, kind); ok {
+							st = st2
+						}
 					}
 					// after completed compaction the fragment as a whole is below the garbage threshold by a wide margin:
 					// every table is below 40 %, so the sum is below 40 % of the allocation
